@@ -318,6 +318,35 @@ def opTable : List OpSpec :=
 
 def findOp (name : String) : Option OpSpec := opTable.find? (·.name = name)
 
+/-! ### call forms
+
+`wrap_shapely` builds `wrapped(*args)`: the sixteen decorated `Geometry` methods take their
+operands positionally only (a keyword operand is a `TypeError` before anything is looked at);
+every other operation is a plain `def` and also takes its operands by keyword.  Pinned here so
+that a newly accepted call form shows up as a correspondence difference and is probed with
+mismatching CRSs by the harness. -/
+
+inductive CallForm where
+  | positional   -- `Class.op(a, b)` / `a.op(b)` / `f(xs)`
+  | operator     -- `a & b`, `a | b`, `a == b`, `g[roi]` (dunder names only)
+  | keyword      -- operands other than `self` by parameter name
+  | allKeyword   -- every operand, `self` included, by parameter name (unbound call)
+  deriving DecidableEq, Repr
+
+/-- the operations produced by `wrap_shapely` (geom.py:510-542) -/
+def positionalOnly : List String :=
+  (["contains", "covers", "crosses", "disjoint", "intersects", "touches", "within", "overlaps",
+    "difference", "intersection", "symmetric_difference", "union", "__and__", "__or__", "__xor__",
+    "__sub__"].map ("Geometry." ++ ·))
+
+/-- is the call form accepted (anything else is a `TypeError` raised by Python's argument binding) -/
+def callFormAccepted (name : String) (f : CallForm) : Bool :=
+  match f with
+  | .positional => true
+  | .operator => true
+  | .keyword => !(positionalOnly.contains name)
+  | .allKeyword => !(positionalOnly.contains name)
+
 /-! ### bounding boxes with the real arithmetic (geom.py:1330-1383) -/
 
 structure BBox where
